@@ -64,10 +64,10 @@ type subRec struct {
 }
 
 type recCC struct {
-	w       *world
-	prefix  string
-	updates int
-	last    []string
+	w        *world
+	prefix   string
+	updates  int
+	last     []string
 	res      resolver.Resolver
 	tainted  bool
 	lateRace bool
@@ -83,8 +83,8 @@ func (c *recCC) UpdateState(s resolver.State) error {
 	c.w.safety("resolver", c.prefix, c.last)
 	return nil
 }
-func (c *recCC) ReportError(error)                {}
-func (c *recCC) NewAddress(_ []resolver.Address)  {}
+func (c *recCC) ReportError(error)                                    {}
+func (c *recCC) NewAddress(_ []resolver.Address)                      {}
 func (c *recCC) ParseServiceConfig(string) *serviceconfig.ParseResult { return nil }
 
 type pubRec struct {
@@ -99,25 +99,25 @@ type pubRec struct {
 }
 
 type world struct {
-	r         *simrt.Run
-	t         *simrt.Tape
-	st        *store
-	cli       *simClient
-	endpoints []string
-	keysOf    []string // key universe (full etcd keys)
-	vals      []string
-	subs      []*subRec
-	cc        *recCC
-	pubs      []*pubRec
-	reloads   []*simrt.Task
-	allPubs   []*discov.Publisher
-	calm      bool
-	faulty    bool
-	joinsBegun map[string]int
-	clk        int
+	r                        *simrt.Run
+	t                        *simrt.Tape
+	st                       *store
+	cli                      *simClient
+	endpoints                []string
+	keysOf                   []string // key universe (full etcd keys)
+	vals                     []string
+	subs                     []*subRec
+	cc                       *recCC
+	pubs                     []*pubRec
+	reloads                  []*simrt.Task
+	allPubs                  []*discov.Publisher
+	calm                     bool
+	faulty                   bool
+	joinsBegun               map[string]int
+	clk                      int
 	pendingClass, pendingMsg string
-	log       []string
-	nOps      int
+	log                      []string
+	nOps                     int
 }
 
 func setOf(xs []string) map[string]bool {
@@ -284,62 +284,75 @@ func (w *world) classify(prefix string, excl, lateRace bool, got, required, allo
 	live := w.st.live(prefix)
 	// every differing value is attributed to a recorded scenario class if the history has the
 	// feature that class needs; one value without such a feature makes the mismatch generic
-	causes := map[string]bool{}
+	causes, mcauses := map[string]bool{}, map[string]bool{}
 	unexplained := false
+	// The classes of defects that are still open are tried first: a history that has the feature
+	// of an open defect (snapshot without registration order, two racing first subscribers, a
+	// subscriber attached while events were in flight) is attributed to it; the classes of the
+	// defects that have been repaired (update in place, reload with a changed value) are named
+	// only for histories without any such feature, so that their return is reported.
 	for _, v := range extra {
 		switch {
-		case vt.overwritten[v] || (vt.dupWatch && vt.multiValued(v)):
-			// stale value that was overwritten in place by a delivered PUT of the same key (with
-			// two concurrent streams the order of application is not observable: any key that
-			// was announced with v and with another value counts)
-			causes["stale-value-after-update-in-place"] = true
-		case vt.reloadOverwritten[v]:
-			// ... or by a reload snapshot in which the key had another value
-			causes["stale-value-after-reload-with-changed-value"] = true
 		case excl && vt.snapAmbig[v]:
 			causes["exclusive-snapshot-ignores-registration-order"] = true
 		case vt.dupWatch:
 			causes["concurrent-first-subscribers-race"] = true
 		case lateRace:
 			causes["late-subscriber-races-with-watch-event"] = true
+		case vt.overwritten[v]:
+			// stale value that was overwritten in place by a delivered PUT of the same key
+			causes["stale-value-after-update-in-place"] = true
+		case vt.reloadOverwritten[v]:
+			// ... or by a reload snapshot in which the key had another value
+			causes["stale-value-after-reload-with-changed-value"] = true
 		default:
 			unexplained = true
 		}
 	}
 	for _, v := range missing {
 		switch {
-		case excl && len(vt.overwritten) > 0 && vt.movedTo(live, v):
-			// exclusive: the key holding v was updated in place before; its stale entry under the
-			// old value makes a later eviction of the old value hit its current registration
-			causes["exclusive-value-lost-after-update-in-place"] = true
-		case vt.reloadNew[v]:
-			// some key got v in a reload that changed the key's value (handleChanges announces the
-			// new value, then removes the key)
-			causes["value-lost-after-reload-with-changed-value"] = true
-		case excl && (vt.snapAmbig[v] || vt.snapshots >= 2):
+		case excl && vt.snapAmbig[v]:
 			// exclusive: a snapshot (initial load, reload, the registry's current values handed to
 			// a late subscriber) carries no registration order: v was held by two keys in a
-			// snapshot (which one "registered last" is decided by map iteration order), or the
-			// value-only diff of a reload could not see that the holder registered again
-			causes["exclusive-snapshot-ignores-registration-order"] = true
+			// snapshot, which one "registered last" is decided by map iteration order
+			mcauses["exclusive-snapshot-ignores-registration-order"] = true
 		case vt.dupWatch:
 			// two first subscribers raced through Registry.Monitor: both loaded a snapshot (the
 			// later one found nothing new to announce, so its listener never got the initial
 			// values) and both started a watch stream, so two goroutines feed the listeners
-			causes["concurrent-first-subscribers-race"] = true
+			mcauses["concurrent-first-subscribers-race"] = true
+		case excl && vt.snapshots >= 2:
+			// exclusive, after a reload: the value-only diff of a reload cannot see that the
+			// holder of v registered again while the watch was interrupted
+			mcauses["exclusive-snapshot-ignores-registration-order"] = true
 		case lateRace:
 			// attached to an existing watcher while events were in flight (Monitor hands over the
 			// registry's current values, handleWatchEvents calls the listeners it captured before
 			// applying the events)
-			causes["late-subscriber-races-with-watch-event"] = true
+			mcauses["late-subscriber-races-with-watch-event"] = true
+		case excl && len(vt.overwritten) > 0 && vt.movedTo(live, v):
+			// exclusive: the key holding v was updated in place before; a stale entry under the
+			// old value would make a later eviction of the old value hit its current registration
+			mcauses["exclusive-value-lost-after-update-in-place"] = true
+		case vt.reloadNew[v]:
+			// some key got v in a reload that changed the key's value
+			mcauses["value-lost-after-reload-with-changed-value"] = true
 		default:
 			unexplained = true
 		}
 	}
 	if !unexplained {
-		for _, c := range []string{"stale-value-after-update-in-place", "exclusive-value-lost-after-update-in-place",
-			"stale-value-after-reload-with-changed-value", "value-lost-after-reload-with-changed-value",
-			"exclusive-snapshot-ignores-registration-order", "concurrent-first-subscribers-race", "late-subscriber-races-with-watch-event"} {
+		// a missing live value names the class (a stale value next to it is usually its
+		// consequence: the event that would have replaced it was the one that got lost)
+		order := []string{"exclusive-snapshot-ignores-registration-order", "concurrent-first-subscribers-race", "late-subscriber-races-with-watch-event",
+			"stale-value-after-update-in-place", "exclusive-value-lost-after-update-in-place",
+			"stale-value-after-reload-with-changed-value", "value-lost-after-reload-with-changed-value"}
+		for _, c := range order {
+			if mcauses[c] {
+				return c
+			}
+		}
+		for _, c := range order {
 			if causes[c] {
 				return c
 			}
